@@ -257,6 +257,10 @@ def variantName : Val → String
 /-- record R { a: i32, b: i32 } -/
 def fieldName (i : Nat) : String := (["a", "b", "c", "d"][i]?).getD s!"f{i}"
 
+/-- the variant a `cloneProj` tag names: 0/1 = Some/None, 10+k = variant k of `E` -/
+def tagName (tag : Nat) : String :=
+  if tag == 0 then "Some" else if tag == 1 then "None" else (["A", "B", "C"][tag - 10]?).getD s!"V{tag}"
+
 def opName : BinOp → String
   | .add => "Add" | .sub => "Sub" | .mul => "Mul" | .eq => "Eq" | .ne => "Ne"
   | .lt => "Lt" | .le => "Le" | .gt => "Gt" | .ge => "Ge"
@@ -280,7 +284,7 @@ def showValue : Value → String
   | .neg x => "neg " ++ showVar x
   | .callRt f args => s!"callrt {hostName f} " ++ " ".intercalate (args.map showVar)
   | .disc x => "disc " ++ showVar x
-  | .cloneProj x i => s!"clone {showVar x}.Some#{i}"      -- only `e?` reads a variant field so far
+  | .cloneProj x i tag => s!"clone {showVar x}.{tagName tag}#{i}"
   | .cloneField x i => s!"clone {showVar x}.{fieldName i}"
 
 /-- CFG under construction: finished/open blocks (instructions reversed) and the current block. -/
@@ -320,6 +324,28 @@ partial def emitStm (g : Cfg) : Stm → Cfg
     let g := if thn.isEmpty then g else (emitCode (g.goto lthen) thn).push s!"j {lcont}"
     let g := if els.isEmpty then g else (emitCode (g.goto lelse) els).push s!"j {lcont}"
     g.goto lcont
+  | .mtch d chains dflt arms =>
+    -- arm blocks first (so that chains can name them), then the continuation, then the chains
+    let (g, armLbls) := arms.foldl (fun (acc : Cfg × List Nat) _ => let (g, l) := acc.1.newBlock; (g, acc.2 ++ [l])) (g, [])
+    let (g, lcont) := g.newBlock
+    let armLbl := fun (a : Nat) => (armLbls[a]?).getD 9999
+    -- switch d [k => chain_k …] else default
+    let (g, chainLbls) := chains.foldl (fun (acc : Cfg × List (Nat × Nat)) ch =>
+      match ch with
+      | .mk k _ => let (g, l) := acc.1.newBlock; (g, acc.2 ++ [(k, l)])) (g, [])
+    let (g, ldflt) := if dflt.isEmpty then (g, 9999) else g.newBlock
+    let branches := " ".intercalate (chainLbls.map (fun p => s!"{p.1}:{p.2}"))
+    let g := g.push s!"m {showVar d} {if dflt.isEmpty then "-" else toString ldflt} {branches}"
+    let g := (chains.zip chainLbls).foldl (fun g p =>
+      match p.1 with
+      | .mk _ steps =>
+        let (g, l0) := g.newBlock
+        emitChain (((g.goto p.2.2).push s!"j {l0}").goto l0) armLbl steps) g
+    let g := if dflt.isEmpty then g else
+      let (g, l0) := g.newBlock
+      emitChain (((g.goto ldflt).push s!"j {l0}").goto l0) armLbl dflt
+    let g := (arms.zip armLbls).foldl (fun g p => (emitCode (g.goto p.2) p.1).push s!"j {lcont}") g
+    g.goto lcont
   | .ite x k thn els =>
     let kn := if k then 1 else 0
     let (g, lthen) := g.newBlock
@@ -352,6 +378,26 @@ partial def emitStm (g : Cfg) : Stm → Cfg
 partial def emitCode (g : Cfg) : List Stm → Cfg
   | [] => g
   | s :: rest => emitCode (emitStm g s) rest
+/-- `match_case`: the chain's entry block jumps to the first guard block; every link is a
+    block (binds; then `jump arm` or guard code + `switch g [1 => arm] else next`); the block
+    after the last link is never created (label `9999`, unreachable when the match is exhaustive). -/
+partial def emitChain (g : Cfg) (armLbl : Nat → Nat) : List GStep → Cfg
+  | [] => g.push "j 9999"
+  | .plain binds a :: rest =>
+    let g := emitCode g binds
+    let g := g.push s!"j {armLbl a}"
+    -- later links are dead blocks: lowered (they took temporaries), not reachable
+    let (g, l) := g.newBlock
+    emitChain (g.goto l) armLbl rest
+  | .guarded binds gcode gv a :: rest =>
+    let g := emitCode g binds
+    let g := emitCode g gcode
+    -- `switch g [1 => arm] else guard_i_drop`; `guard_i_drop: (drops) jump guard_{i+1}`
+    let (g, ldrop) := g.newBlock
+    let (g, lnext) := g.newBlock
+    let g := g.push s!"s {showVar gv} 1 {armLbl a} {ldrop}"
+    let g := (g.goto ldrop).push s!"j {lnext}"
+    emitChain (g.goto lnext) armLbl rest
 end
 
 open RotoV.LowerS in
